@@ -66,7 +66,7 @@ func (Engine) Describe(prop string) core.Description {
 			"self-inverse relationships are never generated",
 			"the laws on Rel values are sampled over the name pool, not enumerated over all strings",
 		}
-		d.Probes = []string{"colliding-concatenation-pair", "underscore-colliding-relationships", "two-way-pair", "one-way-rel", "same-type-pair", "rels-after-removal", "names-held-by-other-relationships-first", "rels-peeked-while-building", "pair-added-with-AddTwoWayRel"}
+		d.Probes = []string{"colliding-concatenation-pair", "underscore-colliding-relationships", "two-way-pair", "one-way-rel", "same-type-pair", "rels-after-removal", "names-held-by-other-relationships-first", "world-with-dozens-of-relationships", "rels-peeked-while-building", "pair-added-with-AddTwoWayRel"}
 	}
 
 	if prop == "C15" {
